@@ -256,7 +256,7 @@ namespace cdsv {
 
     // runs the concurrent rounds + segments for one variant; in C20 mode (args().prop == "C20") runs single-threaded sequences instead
     template <class Adapter>
-    inline void run_set_variant( const char* prop_id, std::string const& name, bool ordered, bool check_size, unsigned stable_low = 0, double scale = 1.0 )
+    inline void run_set_variant( const char* prop_id, std::string const& name, bool ordered, bool check_size, unsigned stable_low = 0, double scale = 1.0, unsigned keys_hi_rounds = 5, unsigned keys_hi_segments = 8 )
     {
         if ( !args().want( name )) return;
         Rng vr( args().seed ^ std::hash<std::string>()( name ));
@@ -279,7 +279,7 @@ namespace cdsv {
         }
         {
             SetPlan p; p.prop = prop_id; p.variant = name + "/rounds";
-            p.threads = vr.range( 2, 4 ); p.keys = vr.range( 2, 5 ) + stable_low; p.min_ops = 1; p.max_ops = 4;
+            p.threads = vr.range( 2, 4 ); p.keys = vr.range( 2, keys_hi_rounds ) + stable_low; p.min_ops = 1; p.max_ops = 4;
             p.rounds = uint64_t( double( args().n( 5000, 120000 )) * scale ); if ( !p.rounds ) p.rounds = 1;
             p.ordered = ordered; p.check_size = check_size; p.stable_low_keys = stable_low;
             std_weights( p );
@@ -289,7 +289,7 @@ namespace cdsv {
         {
             SetPlan p; p.prop = prop_id; p.variant = name + "/segments";
             p.recreate_every = 25;
-            p.threads = vr.range( 2, 4 ); p.keys = vr.range( 3, 8 ) + stable_low; p.min_ops = 10; p.max_ops = 60;
+            p.threads = vr.range( 2, 4 ); p.keys = vr.range( 3, keys_hi_segments ) + stable_low; p.min_ops = 10; p.max_ops = 60;
             p.rounds = uint64_t( double( args().n( 500, 12000 )) * scale ); if ( !p.rounds ) p.rounds = 1;
             p.ordered = ordered; p.check_size = check_size; p.stable_low_keys = stable_low;
             std_weights( p );
